@@ -37,7 +37,7 @@ PROP = dict(
     rule="engine c07b (added after two seeded bugs were missed): fw/wf/conn drive protocol.FrameWriter.Write, WriteFrame and peer.Manager.SendToPeer->Connection.WriteFrame "
          "with payloads 0..1 MiB around 16383/16384/16385 and require an error or bytes the real FrameReader accepts with payload <= 16384; msg drives the "
          "senders that put ONE sealed/encoded message into a frame without chunking (forwardShellClientData with a non-STDIN message, SendControlRequestWithData, "
-         "sendControlResponse) with 0..200000-byte messages and requires no frame > limit on the wire; stall pushes the frames of a 0.16-16 MB transfer from a "
+         "sendControlResponse, and the real client entry points OpenShellStream / UploadFile / DownloadFile whose STREAM_OPEN is acknowledged through the real stream manager so that they seal and send their metadata message with a 10..70000-byte argument/path) with 0..200000-byte messages and requires no frame > limit on the wire; stall pushes the frames of a 0.16-16 MB transfer from a "
          "goroutine through the REAL Agent.handleStreamData -> stream.Manager.HandleStreamData -> Stream.PushData into a stream of the agent's stream manager while "
          "the application (meshConn.Read) stalls 0-7 s with up to 1000 frames in flight (one 3 s stall with 199 frames in quick) and requires the bytes read to equal "
          "the bytes sent. Engine c07: "
